@@ -77,11 +77,11 @@ struct SimHeap {
     bool armedReallocOnly;      // the one-shot request-size check of a realloc op waits for the platform realloc (a bookkeeping node may be allocated first)
     bool reallocZeroFrees;      // realloc(p, 0) releases p and answers NULL (glibc) instead of handing out a zero-size block
     size_t userRequest;          // size of the user request in flight (0 = none): a platform request below it is refused
-    bool undersized; size_t undersizedGot, undersizedWanted; bool armed; bool limitHit;
+    bool undersized; size_t undersizedGot, undersizedWanted; bool armed; bool nodePassed; bool limitHit;
     bool dirty; bool active;
     long foreignFrees;
     char* watchFree; size_t watchSize, watchLeft; uint64_t watchPat; bool watchSeen;
-    SimHeap() : arena(0), cap(0), top(0), prevTop(0), residue(-1), rng(1), mallocCalls(0), reallocCalls(0), freeCalls(0), failMallocIn(-1), failReallocIn(-1), userRequest(0), undersized(false), undersizedGot(0), undersizedWanted(0), armed(false), limitHit(false), dirty(true), active(false), foreignFrees(0), watchFree(0), watchSize(0), watchLeft(0), watchPat(0), watchSeen(false) {}
+    SimHeap() : arena(0), cap(0), top(0), prevTop(0), residue(-1), rng(1), mallocCalls(0), reallocCalls(0), freeCalls(0), failMallocIn(-1), failReallocIn(-1), userRequest(0), undersized(false), undersizedGot(0), undersizedWanted(0), armed(false), nodePassed(false), limitHit(false), dirty(true), active(false), foreignFrees(0), watchFree(0), watchSize(0), watchLeft(0), watchPat(0), watchSeen(false) {}
     void init() {
         if (arena) return;
         cap = (size_t)512 << 20;
@@ -110,7 +110,9 @@ struct SimHeap {
             if (failMallocIn == 0) { failMallocIn = -1; armed = false; fired("platform_malloc_null"); return 0; }
             if (failMallocIn > 0) failMallocIn--;
         }
-        if (armed && !armedReallocOnly) { armed = false; if (n < userRequest) { undersized = true; undersizedGot = n; undersizedWanted = userRequest; return 0; } }
+        // One request of exactly the size of a bookkeeping node may come before the block's own request (the order of the two is the detector's business).
+        if (armed && !armedReallocOnly && !nodePassed && n == sizeof(MemoryLeakDetectorNode) && n < userRequest) { nodePassed = true; }
+        else if (armed && !armedReallocOnly) { armed = false; if (n < userRequest) { undersized = true; undersizedGot = n; undersizedWanted = userRequest; return 0; } }
         if (n > ((size_t)64 << 20) || top + n + 4096 > cap) { fired("platform_heap_limit"); limitHit = true; return 0; }
         uintptr_t a = ((uintptr_t)(arena + top) + 15) & ~(uintptr_t)15;
         a += 16;                                        // red zone between blocks
@@ -597,7 +599,7 @@ struct Engine : public vf::Engine {
                 for (size_t k = 0; k < W.wrappers.size(); k++) if (W.wrappers[k] == alloc && W.wrappers[k]->failNodeIn == 0 && sepNode && !expectNull) { nodeFails = W.wrappers[k]; userBalance = nodeFails->allocs - nodeFails->frees; }
                 if (platformFaultArmed) { lenient = true; }
                 bool tooBig = overflowingCalloc || size > ((size_t)48 << 20) || size > SIZE_MAX - overhead;
-                HEAP.userRequest = overflowingCalloc ? 0 : size; HEAP.armed = !overflowingCalloc && W.acct.empty(); HEAP.limitHit = false;      // (an accounting decorator makes platform requests of its own before the user's)
+                HEAP.userRequest = overflowingCalloc ? 0 : size; HEAP.armed = !overflowingCalloc && W.acct.empty(); HEAP.nodePassed = false; HEAP.limitHit = false;      // (an accounting decorator makes platform requests of its own before the user's)
                 char* p = 0; bool threw = false, testFailure = false;
                 try {
                     if (o.kind == H_CALLOC) p = (char*)cpputest_calloc_location((size_t)o.b, (size_t)o.c, file, line);
